@@ -278,7 +278,20 @@ def coq_eval_mismatches(name, header, case_terms, check_fn, shard_size=400, time
     Writes coq/cases/<name>_<k>.v files, evaluates them with vm_compute in parallel, and returns
     (list of mismatching global indices, error text or None)."""
     os.makedirs(os.path.join(COQ, "cases"), exist_ok=True)
-    shards = [case_terms[i:i + shard_size] for i in range(0, len(case_terms), shard_size)]
+    # the number of shards is what consecutive slicing would give; terms are dealt to the shards by size (largest first, to
+    # the lightest shard) because evaluation time follows the size of the term: index_of[k][j] is the global index
+    nsh = max(1, (len(case_terms) + shard_size - 1) // shard_size)
+    index_of = [[] for _ in range(nsh)]
+    load = [0] * nsh
+    import heapq
+    heap = [(0, k) for k in range(nsh)]
+    for gi in sorted(range(len(case_terms)), key=lambda i: -len(case_terms[i])):
+        w, k = heapq.heappop(heap)
+        index_of[k].append(gi)
+        heapq.heappush(heap, (w + len(case_terms[gi]) + 40, k))
+    for k in range(nsh):
+        index_of[k].sort()
+    shards = [[case_terms[gi] for gi in index_of[k]] for k in range(nsh)]
     procs = []
     for k, sh_cases in enumerate(shards):
         fn = os.path.join(COQ, "cases", "%s_%d.v" % (name, k))
@@ -305,7 +318,7 @@ def coq_eval_mismatches(name, header, case_terms, check_fn, shard_size=400, time
             return
         body = m.group(1)
         for d in re.findall(r"\d+", body):
-            mism.append(k * shard_size + int(d))
+            mism.append(index_of[k][int(d)])
         for ext in (".v", ".vo", ".vok", ".vos", ".glob"):
             try:
                 os.remove(fn[:-2] + ext)
